@@ -244,7 +244,42 @@ def run(prop, tier, seed, known):
                 return occs
             rp = [pat() for _ in range(rng.randint(1, 3))]
             ep = [pat() for _ in range(rng.randint(1, 3))] if rng.random() < 0.7 else [list(map(list, p)) for p in rp]
+            if rng.random() < 0.4:
+                # estimated patterns that are near-copies of reference patterns (some notes replaced): similarities between the thresholds,
+                # several estimated patterns relevant to one reference pattern and the other way round
+                ep = []
+                for p_ in rp:
+                    for _rep in range(rng.randint(1, 2)):
+                        ep.append([[tuple(x_) for x_ in occ_[:max(1, len(occ_) - rng.choice([0, 0, 1]))]] + [(t_ + 0.5, q_ + 13.0) for t_, q_ in occ_[max(1, len(occ_) - rng.choice([0, 1])):]]
+                                   for occ_ in p_])
+                rng.shuffle(ep)
             pv = guard('pattern.evaluate', lambda: pattern.evaluate(rp, ep))
+            # C04: establishment and occurrence scores per their definition (Collins): cardinality score between occurrences; establishment matrix =
+            # best occurrence pair per pattern pair; occurrence scores over the pattern pairs whose best occurrence pair reaches the threshold,
+            # each pattern counted once per relevant pair it takes part in
+            def sim_(a_, b_):
+                return len(set(map(tuple, a_)) & set(map(tuple, b_))) / float(max(len(a_), len(b_)))
+            smat_ = {(i_, j_): [[sim_(a_, b_) for b_ in ep[j_]] for a_ in rp[i_]] for i_ in range(len(rp)) for j_ in range(len(ep))}
+            S_ = [[max(max(r_) for r_ in smat_[(i_, j_)]) for j_ in range(len(ep))] for i_ in range(len(rp))]
+            f1_ = lambda p_, r_: 0.0 if p_ == 0 and r_ == 0 else 2 * p_ * r_ / (p_ + r_)
+            pe_ = sum(max(S_[i_][j_] for i_ in range(len(rp))) for j_ in range(len(ep))) / len(ep)
+            re_ = sum(max(S_[i_][j_] for j_ in range(len(ep))) for i_ in range(len(rp))) / len(rp)
+            ge_ = guard('pattern.establishment_FPR', lambda: pattern.establishment_FPR(rp, ep))
+            if ge_ is not None and any(abs(float(a_) - b_) > 1e-9 for a_, b_ in zip(ge_, (f1_(pe_, re_), pe_, re_))):
+                fails.append('pattern.establishment_FPR = %s, its definition gives %s (ref %s, est %s)' % (tuple(float(x_) for x_ in ge_), (f1_(pe_, re_), pe_, re_), rp, ep))
+            for thr_ in (0.5, 0.75):
+                rel_ = [(i_, j_) for i_ in range(len(rp)) for j_ in range(len(ep)) if S_[i_][j_] >= thr_]
+                if rel_:
+                    op_ = {k_: sum(max(row_[c_] for row_ in smat_[k_]) for c_ in range(len(smat_[k_][0]))) / len(smat_[k_][0]) for k_ in rel_}
+                    or_ = {k_: sum(max(row_) for row_ in smat_[k_]) / len(smat_[k_]) for k_ in rel_}
+                    rows_, cols_ = [i_ for i_, _ in rel_], [j_ for _, j_ in rel_]
+                    po_ = sum(max(op_.get((i_, j_), 0.0) for i_ in rows_) for j_ in cols_) / len(cols_)
+                    ro_ = sum(max(or_.get((i_, j_), 0.0) for j_ in cols_) for i_ in rows_) / len(rows_)
+                else:
+                    po_ = ro_ = 0.0
+                go_ = guard('pattern.occurrence_FPR', lambda: pattern.occurrence_FPR(rp, ep, thres=thr_))
+                if go_ is not None and any(abs(float(a_) - b_) > 1e-9 for a_, b_ in zip(go_, (f1_(po_, ro_), po_, ro_))):
+                    fails.append('pattern.occurrence_FPR(thres=%s) = %s, its definition gives %s (ref %s, est %s)' % (thr_, tuple(float(x_) for x_ in go_), (f1_(po_, ro_), po_, ro_), rp, ep))
             if pv is not None:
                 for key, v in pv.items():
                     if not (isinstance(v, (float, int, np.floating, np.integer)) and np.isfinite(v) and v >= -1e-9) or (key not in ('P', 'F') and v > 1 + 1e-9):
